@@ -4,6 +4,7 @@ import (
 	"encoding/json"
 	"fmt"
 	"os"
+	"regexp"
 	"strings"
 
 	"github.com/DrmagicE/gmqtt/zzverif/vsched"
@@ -29,6 +30,10 @@ func execBody(c *explore.Ctx, rulePrefix string, cas func() any, body func()) bo
 		return false
 	}
 	if r.StepLimit {
+		if sp := gmqttSpinner(r); sp != "" {
+			c.Violate("no-livelock", "busy-loop:"+sp, cas(), "every goroutine blocks or exits", "goroutine "+r.Spinner+" keeps running alone without ever blocking (>100000 consecutive scheduling points)")
+			return false
+		}
 		c.Fatal("%s: step limit reached (case %v)", rulePrefix, cas())
 		return false
 	}
@@ -41,6 +46,18 @@ func execBody(c *explore.Ctx, rulePrefix string, cas func() any, body func()) bo
 		return false
 	}
 	return true
+}
+
+var gmqttThread = regexp.MustCompile(`^(server|federation|auth|admin|mem|redis|gmqtt|persistence|trie|fifo|packets|prometheus)\.`)
+
+// gmqttSpinner: the broker goroutine (not a harness thread) that kept running alone until
+// the step limit, without the harness-internal "fed." / client threads.
+func gmqttSpinner(r *vsched.Result) string {
+	if r.Spinner == "" || !gmqttThread.MatchString(r.Spinner) {
+		return ""
+	}
+	name := strings.SplitN(r.Spinner, "@", 2)[0]
+	return name
 }
 
 var verbose bool
